@@ -187,8 +187,11 @@ impl<'store> Transposable<'store> for ResultTextSelectionSet<'store> {
                                 .expect("intersection offset must be valid"); //the relative offset will be used to select target fragments later
                             let source_offset: Offset = intersection.into();
                             if let Some(remainder) = remainder {
-                                if remainder.begin() < intersection.begin() {
-                                    //not a valid intersection (this fragment starts further on in our text selection), skip to the next
+                                if remainder.begin() < intersection.begin()
+                                    || intersection.begin() == intersection.end()
+                                {
+                                    //not a valid intersection (this fragment starts further on in our text selection,
+                                    //or it is empty and consumes nothing of it), skip to the next
                                     //(what was found before stays as it is)
                                     if config.debug {
                                         eprintln!("[stam transpose] remainder preceeds intersection, skipping...");
